@@ -27,7 +27,7 @@ CLAIMS = {
    design="6 C02"),
  "C03": dict(engine="HttpMsg", technique="TLA+ spec HttpMsg (reference semantics RespOK; pipeline model with JoinedTrailerNames / LatchInterim attacks) + TLC-exported class domains concretised as byte-exact scripted backend responses through the real agent+proxy + TLC trace validation (HttpMsgTrace)",
    text="Every class of status, request method, header set, framing, body segmentation, declared/undeclared trailers and interim 1xx responses is exercised (sweep + seeded combinations, 268 quick / 2000+ thorough); the response parsed by a raw client is judged by the TLA+ operator RespOK; thorough tier repeats under the race detector.",
-   note="Trusted: TLC, the harness' abstraction of responses. h2c backends are not covered yet. Header name case, Date and framing headers are not compared.",
+   note="Trusted: TLC, the harness' abstraction of responses. HTTP/1.1 raw backend (byte-exact wire response) and an h2c backend (agent with --force-http2; framing classes collapse to with/without Content-Length). Header name case, Date and framing headers are not compared.",
    design="6 C03"),
  "C09": dict(engine="HttpMsg", technique="TLA+ spec HttpMsg (IdentityOK / CredsOK; pipeline model with IdentityAdd attack) + exhaustive class product run against the real agent binary behind a scripted fake proxy, with a recording HTTP + websocket backend + TLC trace validation",
    text="All combinations of forward-user-id x strip-credentials x shim x sessions x forged identity header class x Authorization class x request kind (GET, POST, websocket-shim open) are executed (840 quick / 1440 thorough); what the backend saw is judged by IdentityOK / CredsOK in TLA+.",
